@@ -60,11 +60,12 @@ class Instr:
                 for c, h in zip(kids, hop_to):
                     ok_pos = np.array_equal(c.position, s.position) and c.time == s.time + s.dt and c.nsteps == s.nsteps + 1
                     hopped = c.state == int(h["target"])
-                    ok_state = hopped or (c.state == s.state and np.array_equal(c.velocity, s.velocity))
+                    ok_state = hopped or (c.state == s.state and np.allclose(c.velocity, s.velocity, rtol=1e-14, atol=0.0))   # clone() passes velocity*mass and divides again: one rounding
                     ok_rho = np.array_equal(c.rho, s.rho) and c.rho is not s.rho and c.position is not s.position and c.velocity is not s.velocity
                     if not (ok_pos and ok_state and ok_rho):
                         inst.bad.append(dict(failed="a child starts at the parent's phase-space point at the hop time on its target state (or the parent's state if frustrated), sharing no arrays",
-                                             case=dict(parent=s._v["id"], child=c._v["id"], time=s.time)))
+                                             case=dict(parent=s._v["id"], child=c._v["id"], time=s.time, ok_pos=bool(ok_pos), ok_state=bool(ok_state), ok_rho=bool(ok_rho),
+                                                       child_state=int(c.state), parent_state=int(s.state), target=int(h["target"]), nkids=len(kids), nhops=len(hop_to))))
         ES.__init__, ES.hopper, ES.clone, ES.hop_to_it = init, hopper, clone, hop_to_it
         # trace clones: remember what was inherited, log what is recorded directly
         self.o_tclone = {}
